@@ -3,8 +3,7 @@
 import json, os, re, glob
 V = os.path.dirname(os.path.dirname(os.path.abspath(__file__)))
 props = {json.loads(l)["id"]: json.loads(l) for l in open(os.path.join(V, "properties.jsonl"))}
-NOT_CAUGHT = {"C08_4": "NOT CAUGHT - outside the stated bounds: only shows with agg_model_hard_threshold=False and an unsaturated sigmoid "
-              "(the soft threshold is not modelled; an attempt with an uninterpreted monotone expit did not exhaust in 10 minutes)"}
+NOT_CAUGHT = {}
 rows = []
 for d in sorted(glob.glob(os.path.join(V, "seeded", "C*_*"))):
     sid = os.path.basename(d)
